@@ -44,6 +44,28 @@ pub fn chunks_of(lib: &Library, gates: &Gates) -> Vec<String> {
         .collect()
 }
 
+/// the same chunks with every keyword and every identifier occurrence in a letter case of its own
+/// (same lengths, so offsets inside a chunk stay comparable): a reference rarely has the spelling
+/// of its declaration
+pub fn chunks_of_recased(lib: &Library, gates: &Gates, t: &mut Tape) -> Vec<String> {
+    lib.elements
+        .iter()
+        .map(|e| {
+            let one = Library { elements: vec![e.clone()] };
+            let mut p = Printer::new(gates, Tape::empty());
+            p.library(&one);
+            let lex = p.finish();
+            let mut o = SpellOpts::canonical();
+            o.ident_case = true;
+            o.kw_case = true;
+            let bytes: Vec<u8> = (0..96).map(|_| t.byte()).collect();
+            let (lay, _) = layout(&lex, &o, &mut Tape::new(&bytes));
+            gates.take_hits();
+            lay.text
+        })
+        .collect()
+}
+
 /// files: each a list of chunk indices, in order
 #[derive(Clone, Debug, PartialEq, Eq, Hash)]
 pub struct Arrangement {
@@ -203,7 +225,8 @@ fn check_tape(tape: &[u8], gates: &Gates, stats: &mut Stats, counting: bool, cli
         gates.take_wanted();
         return Ok(());
     }
-    let mut chunks = chunks_of(&unit.lib, gates);
+    let recased = choice.flag();
+    let mut chunks = if recased { chunks_of_recased(&unit.lib, gates, &mut choice) } else { chunks_of(&unit.lib, gates) };
     // third variant: a valid unit in which one declaration is written twice (identical text).
     // Only the verdict is compared (which copy is "the duplicate" may depend on the order).
     let duplicate = !use_fault && choice.ratio(1, 2) && gates.want("DUPLICATED_DECLARATION");
@@ -306,6 +329,9 @@ fn check_tape(tape: &[u8], gates: &Gates, stats: &mut Stats, counting: bool, cli
     }
     if counting {
         stats.class(if single_fault { "unit.single-fault" } else if duplicate { "unit.duplicated-declaration" } else { "unit.valid" });
+        if recased {
+            stats.class("unit.identifiers-recased");
+        }
         stats.absorb_gates(gates);
         if stats.samples.len() < 3 {
             stats.samples.push(json!({"chunks": chunks, "arrangements_checked": arrangements.len(), "canonical_codes": base.codes}));
